@@ -12,6 +12,7 @@ import (
 	sdkmath "cosmossdk.io/math"
 	sdk "github.com/cosmos/cosmos-sdk/types"
 
+	fxtypes "github.com/functionx/fx-core/v8/types"
 	cctypes "github.com/functionx/fx-core/v8/x/crosschain/types"
 
 	"fxmc/explore"
@@ -39,7 +40,9 @@ func domains(chain, typ string, thorough bool) map[string][]interface{} {
 		return map[string][]interface{}{
 			"EventNonce": {uint64(2), uint64(20)}, "BlockHeight": {uint64(102), uint64(1)},
 			"TokenContract": {a("fx-token"), a("tok2")}, "Amount": {i(7), i(70)}, "Sender": {a("depositor"), a("d2")},
-			"Receiver": {world.NewActor("u1").Bech(), world.NewActor("u2").Bech()}, "TargetIbc": {"", hex.EncodeToString([]byte("erc20")), hex.EncodeToString([]byte("px/transfer/channel-0"))},
+			"Receiver": {world.NewActor("u1").Bech(), world.NewActor("u2").Bech()}, // targets are parsed before use: every spelling the parser knows, and strings that look like a parsed form
+			"TargetIbc": {"", hex.EncodeToString([]byte("erc20")), hex.EncodeToString([]byte("px/transfer/channel-0")), hex.EncodeToString([]byte("ibc/0/px")), hex.EncodeToString([]byte("channel-0/px")),
+				hex.EncodeToString([]byte("module/evm")), hex.EncodeToString([]byte("chain/gravity")), hex.EncodeToString([]byte("eth")), hex.EncodeToString([]byte("px/transfer/channel-1")), hex.EncodeToString([]byte("transfer/channel-0"))},
 		}
 	case "BridgeToken":
 		names := []interface{}{"Other", "A", "A/B", "A/B/C", "B", "B/C"}
@@ -124,6 +127,11 @@ func project(typ string, c cctypes.ExternalClaim) map[string]string {
 		}
 		if iv, ok := reflect.ValueOf(c).Elem().FieldByName(f).Interface().([]sdkmath.Int); ok {
 			out[f] = fmt.Sprint(iv)
+		}
+		if f == "TargetIbc" {
+			// what is executed is the parsed target: two spellings of one route are the same event
+			t := fxtypes.ParseFxTarget(reflect.ValueOf(c).Elem().FieldByName(f).String(), true)
+			out[f] = fmt.Sprintf("ibc=%v target=%q prefix=%q port=%q channel=%q", t.IsIBC(), t.GetTarget(), t.Prefix, t.SourcePort, t.SourceChannel)
 		}
 	}
 	return out
